@@ -298,7 +298,7 @@ def t_all():
 
 
 def cover_cfg(theme, containers, maxfrags, defects):
-    return ("INIT Init\nNEXT Next\nVIEW View\nCHECK_DEADLOCK FALSE\nINVARIANT ThmExport\nCONSTANT MaxFrags = %d\n"
+    return ("INIT Init\nNEXT Next\nCHECK_DEADLOCK FALSE\nINVARIANT ThmExport\nCONSTANT MaxFrags = %d\n"
             "CONSTANT Containers = \"%s\"\nCONSTANT CoverTheme = \"%s\"\nCONSTANT KnownDefects = {%s}\n"
             % (maxfrags, containers, theme, ",".join('"%s"' % d for d in defects)))
 
@@ -309,14 +309,20 @@ def cover_tests(ctx, spec_listed):
     jobs = []
     # (thorough: the shortest prefix of every coarse class still gets every token of the full alphabet; the fractions bound
     #  the rest so that the whole tier stays within about an hour on 16 cores)
-    plans = [("cover", "doc", 3, T_CORE if q else t_all(), 0.04 if q else 0.3),
-             ("cover_afe", "doc", 4 if q else 5, T_FMT, 0.02 if q else 0.3),
-             ("cover", "tableish", 2, T_CORE if q else t_all(), 0.03 if q else 0.15),
-             ("cover_tbl", "doc", 4 if q else 5, T_TBL, 1.0)]
+    plans = [("cover", "doc", 3, T_CORE if q else t_all(), 0.025 if q else 0.2),
+             ("cover_afe", "doc", 4, T_FMT, 0.02 if q else 0.3),
+             ("cover", "tableish", 2, T_CORE if q else t_all(), 0.02 if q else 0.1),
+             ("cover_tbl", "doc", 4, T_TBL, 1.0)]
     for theme, cont, n, toks, frac in plans:
-        r = ctx.tlc("MC_TreeCover", cover_cfg(theme, cont, n, spec_listed), "cover-%s-%s" % (theme, cont), heap="16g")
-        ctx.notes["cover_prefixes_%s_%s" % (theme, cont)] = len(r.records)
-        recs = sorted(r.records, key=lambda x: (len(x["src"]), x["src"], x["cx"]))
+        r = ctx.tlc("MC_TreeCover", cover_cfg(theme, cont, n, spec_listed), "cover-%s-%s" % (theme, cont), heap="16g", keep_records=False)
+        best = {}          # abstract state -> shortest (then smallest) input reaching it: deterministic, independent of TLC's scheduling
+        for x in tlc.iter_records(r.stdout_path):
+            k = json.dumps([x["cx"], x["abs"]])
+            y = best.get(k)
+            if y is None or (len(x["src"]), x["src"]) < (len(y["src"]), y["src"]):
+                best[k] = {"src": x["src"], "cx": x["cx"], "cls": x["cls"]}
+        ctx.notes["cover_prefixes_%s_%s" % (theme, cont)] = len(best)
+        recs = sorted(best.values(), key=lambda x: (len(x["src"]), x["src"], x["cx"]))
         seen_cls = set()
         for rec in recs:
             base = core.ucs(rec["src"])
